@@ -37,6 +37,13 @@ def build_bpm_events(res, tempo):
     return chartparse.track.build_events_from_data(BPMEvent, datas, res)
 
 
+def rebuilt_publicly(be):
+    """the same tempo map put together through the public constructors: every event from its public fields only (private
+    bookkeeping left at its default), then the public container"""
+    from chartparse.sync import BPMEvent, BPMEvents
+    return BPMEvents(events=[BPMEvent(tick=e.tick, timestamp=e.timestamp, bpm=e.bpm) for e in be.events], resolution=be.resolution)
+
+
 TIES = {192: [200000, 40000, 100000, 1000000, 62500], 480: [160000, 32000, 80000, 400000], 100: [128000, 384000, 76800], 960: [80000, 16000, 200000],
         96: [400000, 80000, 200000], 1000: [64000, 12800, 38400]}  # a tick lasts a whole number of µs plus exactly one half
 
